@@ -236,6 +236,7 @@ class SubjectAnalysis:
         # RE.2: the round owns the observer it calls
         for c in calls: self._ownership(S, short, c)
         self._stable_storage(S, short, f, deliver)
+        self._held_across_callback(S, short, f, deliver, calls)
         # path rules: SUB.2 / SUB.6 / RE.1 / RE.4 / SUB.1
         order_seen = set()
         cls_ = self.facts.cls(S) or {}
@@ -445,6 +446,57 @@ class SubjectAnalysis:
                      f'shifts the entries, the address then denotes a neighbour or a destroyed slot while its id still passes the id check — one observer is called twice, another not at all', key='RE.5|stable')
         else:
             self.add('RE.5', None, inst, uses[0].shortloc(), f'whether `{ct[:50]}` keeps the other entries in place when one is erased is not known')
+
+    def _held_across_callback(self, S, short, f, deliver, calls):
+        """RE.5 for every other member container: an iterator / reference / pointer into a member container taken before the callback and
+        used after it, while some member function erases from that container — the callback can call that function (unsubscribe itself)"""
+        cls = self.facts.cls(S) or {}
+        conts = {x['name']: x['ctype'] for x in cls.get('fields', []) if x['name'] != OBS and re.match(r'std::(?:__cxx11::)?(map|unordered_map|set|unordered_set|multimap|multiset|list|forward_list|vector|deque)<', x['ctype'] or '')}
+        if not conts or not calls: return
+        g = common.owner_fn(self.facts, calls[0]) or f
+        if g.cfg is None: return
+        ERASERS = ('erase', 'clear', 'remove', 'remove_if', 'erase_if', 'pop_front', 'pop_back', 'extract', 'swap', 'operator=', 'resize', 'assign')
+        erased = {}
+        for h in self.facts.fns:
+            if h.d.get('classfull') != S: continue
+            for n in h.nodes():
+                if n.k == 'call' and (n.callee_base() in ERASERS or strip_targs(n.calleeq or '') in ('std::erase_if', 'std::erase')):
+                    for a in [n.n('object')] + n.ns('args'):
+                        if a is not None and a.k == 'member' and a.name in conts: erased.setdefault(a.name, (h, n))
+        for n in g.nodes():
+            if n.k != 'decl': continue
+            for v in n.vars:
+                if not v.get('init') or v['init'] not in n.tu.ex: continue
+                init = Node(n.tu, v['init'])
+                x = init
+                while x is not None and x.k in ('cast', 'materialize', 'bindtemp', 'construct') and (x.n('sub') is not None or x.ns('args')): x = x.n('sub') if x.n('sub') is not None else x.ns('args')[0]
+                if x is None or x.k != 'call': continue
+                obj = x.n('object')
+                if obj is None or obj.k != 'member' or obj.name not in conts: continue
+                ty = (v.get('ctype') or v.get('type') or init.type or '')
+                into = 'iterator' in ty or v.get('isref') or v.get('isptr') or ty.rstrip().endswith(('&', '*'))
+                if not into or x.callee_base() in ('size', 'empty', 'count', 'contains'): continue
+                cname = obj.name
+                if cname not in erased: continue
+                body_ids = {y.id for y in (deliver.n('body') or deliver).walk()}
+                if n.id not in body_ids: continue
+                cs = [c for c in calls if c.id in body_ids and self._pos(n) < self._pos(c)]
+                if not cs: continue
+                later = [u for u in g.nodes() if u.k == 'ref' and u.decl == v['decl'] and u.id in body_ids and any(self._pos(u) > self._pos(c) for c in cs)]
+                if not later: continue
+                h, en = erased[cname]
+                self.add('RE.5', False, f'{short}::notify: nothing taken out of `{cname}` before a callback is used after it', later[0].shortloc(),
+                         f'`{v["name"]}` ({n.text()[:50]}) points into {cname} and is used again after the observer has been called ({later[0].shortloc()}): a callback that unsubscribes this observer runs '
+                         f'{h.name.split("::")[-1]}(), which erases that entry (`{en.text()[:40]}`) — the round then reads and writes through a dangling {"iterator" if "iterator" in ty else "reference"}', key=f'RE.5|held|{cname}')
+
+    @staticmethod
+    def _pos(n):
+        """(line, column) of a node: order of evaluation inside one iteration of a structured loop body"""
+        try:
+            parts = (n.d.get('loc') or n.loc or '').split(':')
+            return (int(parts[-2]), int(parts[-1]))
+        except Exception:
+            return (getattr(n, 'line', 0) or 0, 0)
 
     def _ownership(self, S, short, c):
         """RE.2: trace the object the observer call is made on back to its owner"""
